@@ -84,6 +84,10 @@ class Rand:
         return self.rng.random() < p
 
     def fresh_alias(self):
+        # mostly fresh names; sometimes a name from a small pool so that the SAME alias is used for different relations in
+        # different scopes of one statement (seeded mutant C02/3: columns of two same-alias subqueries must stay distinct)
+        if self.allow.get("alias_reuse", True) and self.chance(0.12):
+            return self.pick(ALIASES)
         self._alias_n += 1
         return f"q{self._alias_n}"
 
@@ -273,7 +277,10 @@ def enumerate_shapes(depth=1):
     def leaf_select(t="t1", c="a", alias=None):
         return select([item(col(c))], [from_expr(table(t, None, alias))])
 
-    inner_queries = [leaf_select("t3", "c")]
+    inner_queries = [leaf_select("t3", "c"),
+                     # a derived table / subquery with its own WITH whose CTE is a JOIN partner (seeded mutant C01/3)
+                     with_([("w", leaf_select("t4", "c"))],
+                           select([item(col("c", "t5"))], [from_expr(table("t5"), [join(table("w"), eq(col("c", "t5"), col("c", "w")))])]))]
     if depth >= 2:
         inner_queries += [
             select([item(col("c", "x"))], [from_expr(table("t3", None, "x"), [join(table("t4", "s1"), eq(col("c", "x"), col("c", "t4")))])]),
@@ -386,3 +393,125 @@ def item_has_subq(stmt):
                 if _contains_subq(it[0]):
                     return True
     return False
+
+
+# ------------------------------------------------------------------------------------ column-level targeted families
+def enumerate_columns():
+    """bounded-exhaustive families aimed at the column layer: expression form x scope shape, set-operation arity x name
+    order, explicit column lists, and alias reuse across scopes (each family grew out of a seeded mutant that random
+    generation did not reach)"""
+    # --- scope shapes: (from list, qualifiers usable)
+    scopes = [
+        ("one", [from_expr(table("t1", None, "x"))], ["x"]),
+        ("two_join", [from_expr(table("t1", None, "x"), [join(table("t2", "s1", "y", True), eq(col("k", "x"), col("k", "y")))])], ["x", "y"]),
+        ("two_comma", [from_expr(table("t1", None, "x")), from_expr(table("t2", None, "y"))], ["x", "y"]),
+        ("two_noalias", [from_expr(table("t1"), [join(table("t2"), eq(col("k", "t1"), col("k", "t2")))])], ["t1", "t2"]),
+    ]
+    for sn, frm, qs in scopes:
+        a, b = qs[0], qs[-1]
+        exprs = [
+            ("same_name_func", func("coalesce", [col("a", a), col("a", b)])),
+            ("same_name_arith", ["bin", "+", col("a", a), col("a", b)]),
+            ("same_name_case", ["case", [[["bin", ">", col("a", a), col("a", b)], col("b", a)]], col("b", b)]),
+            ("nested_func", func("concat", [func("abs", [col("a", a)]), func("abs", [col("a", b)]), col("c", a)])),
+            ("window", func("sum", [col("a", a)], False, [[col("a", b)], [col("c", a)]])),
+            ("cast_paren", ["cast", ["paren", ["bin", "-", col("d", b), col("d", a)]], "int"]),
+            ("distinct_func", func("max", [col("a", b)], True)),
+            ("unqualified", func("coalesce", [col("m"), col("n")])),
+            ("mixed", ["bin", "||", col("p"), col("p", a)]),
+        ]
+        for en, e in exprs:
+            q = select([item(col("k", a)), item(e, "r", True), item(col("z", b), "w", False)], frm)
+            yield (f"colexpr/{sn}/{en}/insert", ["insert", "into", False, ["tgt"], None, q, False])
+            yield (f"colexpr/{sn}/{en}/view_cols", ["create_view", ["s1", "v"], False, ["c1", "c2", "c3"], q])
+    # --- set operations: arity x name order x branches
+    import itertools as _it
+    name_orders = [["b", "a"], ["a", "b"], ["c", "a", "b"], ["z", "m", "a"]]
+    for names in name_orders:
+        for nb in (2, 3):
+            brs = []
+            for bi in range(nb):
+                t = f"t{bi + 1}"
+                its = []
+                for j, nm in enumerate(names):
+                    c = nm if bi == 0 else "efgh"[(bi + j) % 4]
+                    its.append(item(col(c, t if (bi + j) % 2 else None)))
+                brs.append((select(its, [from_expr(table(t, "s1" if bi == 1 else None))]), bi == 2))
+            q = setop(brs[0], [("union all" if i % 2 else "union", b) for i, b in enumerate(brs[1:])])
+            tag = "".join(names) + str(nb)
+            yield (f"setop/{tag}/insert", ["insert", "into", False, ["tgt"], None, q, False])
+            yield (f"setop/{tag}/ctas", ["ctas", ["tgt"], False, False, q, False])
+            yield (f"setop/{tag}/insert_cols", ["insert", "into", False, ["tgt"], [f"k{j}" for j in range(len(names))], q, False])
+            yield (f"setop/{tag}/derived", ["insert", "into", False, ["tgt"], None,
+                                           select([item(col(n, "d")) for n in names], [from_expr(derived(q, "d"))]), False])
+            yield (f"setop/{tag}/cte", ["insert", "into", False, ["tgt"], None,
+                                       with_([("c1", q)], select([item(col(n)) for n in reversed(names)], [from_expr(table("c1"))])), False])
+    # --- the same alias for different relations in different scopes
+    def inner(t, c):
+        return select([item(col(c, "s"), "a", True)], [from_expr(derived(select([item(col(c))], [from_expr(table(t))]), "s"))])
+    two_sib = select([item(col("a", "l"), "x", True), item(col("a", "r"), "y", True)],
+                     [from_expr(derived(inner("t1", "a"), "l"), [join(derived(inner("t2", "b"), "r"), eq(col("a", "l"), col("a", "r")))])])
+    yield ("alias_reuse/siblings", ["insert", "into", False, ["tgt"], None, two_sib, False])
+    outer_deeper = select([item(col("a", "s"), "x", True)],
+                          [from_expr(derived(select([item(col("a", "s"))], [from_expr(derived(select([item(col("a"))], [from_expr(table("t1"))]), "s"))]), "s"))])
+    yield ("alias_reuse/outer_and_deeper", ["ctas", ["tgt"], False, False, outer_deeper, False])
+    cte_and_main = with_([("c1", select([item(col("a", "s"))], [from_expr(derived(select([item(col("a"))], [from_expr(table("t1"))]), "s"))]))],
+                         select([item(col("a", "c1"), "x", True), item(col("a", "s"), "y", True)],
+                                [from_expr(table("c1"), [join(derived(select([item(col("b"), "a", True)], [from_expr(table("t2"))]), "s"), eq(col("a", "c1"), col("a", "s")))])]))
+    yield ("alias_reuse/cte_and_main", ["insert", "into", False, ["tgt"], None, cte_and_main, False])
+    swapped = setop((select([item(col("a", "s"), "x", True), item(col("b", "s"), "y", True)],
+                            [from_expr(derived(select([item(col("a")), item(col("b"))], [from_expr(table("t1"))]), "s"))]), False),
+                    [("union all", (select([item(col("b", "s")), item(col("a", "s"))],
+                                           [from_expr(derived(select([item(col("a")), item(col("b"))], [from_expr(table("t2"))]), "s"))]), False))])
+    yield ("alias_reuse/union_branches", ["insert", "into", False, ["tgt"], None, swapped, False])
+
+
+# ------------------------------------------------------------------------------------------ UPDATE / MERGE families
+def enumerate_dml():
+    """UPDATE (ansi `UPDATE t SET .. FROM ..`) and MERGE statements: target/source forms x SET / VALUES forms"""
+    srcs = [
+        ("table", ["table", ["s1", "src"], "y"], "y"),
+        ("table_noalias", ["table", ["src"], None], "src"),
+        ("derived", ["derived", select([item(col("a")), item(col("b")), item(col("c"))], [from_expr(table("t2", "s1"))]), "y"], "y"),
+        ("derived_join", ["derived", select([item(col("a", "p")), item(col("b", "q"))],
+                                              [from_expr(table("t2", None, "p"), [join(table("t3", None, "q"), eq(col("k", "p"), col("k", "q")))])]), "y"], "y"),
+    ]
+    for sn, src, q in srcs:
+        on = eq(col("a", "x"), col("a", q))
+        ups = [
+            ("col", [[["b"], col("b", q)]]),
+            ("two", [[["b"], col("b", q)], [["c"], col("c", q)]]),
+            ("expr", [[["b"], ["bin", "+", col("b", q), lit("1")]], [["c"], col("c", q)]]),
+            ("unqual", [[["b"], col("b")]]),
+        ]
+        ins = [
+            ("match", [[["a"], ["b"]], [col("a", q), col("b", q)]]),
+            ("lit", [[["a"], ["b"], ["c"]], [col("a", q), lit("1"), ["bin", "+", col("c", q), col("d", q)]]]),
+            ("func_shift", [[["a"], ["b"], ["c"]], [col("a", q), func("coalesce", [col("b", q), lit("0")]), col("c", q)]]),
+        ]
+        for un, u in ups:
+            yield (f"merge/{sn}/upd_{un}", ["merge", ["tgt"], "x", src, on, [u], []])
+        for iname, i in ins:
+            yield (f"merge/{sn}/ins_{iname}", ["merge", ["s2", "tgt"], "x", src, on, [], [i]])
+        yield (f"merge/{sn}/both", ["merge", ["tgt"], "x", src, on, [ups[1][1]], [ins[0][1]]])
+    froms = [
+        ("none", []),
+        ("one", [from_expr(table("src", "s1", "y"))]),
+        ("join", [from_expr(table("src", None, "y"), [join(table("t3"), eq(col("k", "y"), col("k", "t3")))])]),
+        ("comma", [from_expr(table("src", None, "y")), from_expr(table("t3", "s2"))]),
+        ("derived", [from_expr(derived(select([item(col("a")), item(col("b"))], [from_expr(table("t4"))]), "y"))]),
+    ]
+    for fn, frm in froms:
+        q = "y" if frm else None
+        sets = [
+            ("col", [[["b"], col("b", q) if q else col("c")]]),
+            ("two", [[["b"], col("b", q) if q else col("c")], [["c"], col("d")]]),
+            ("expr", [[["b"], ["bin", "+", col("b", q) if q else col("c"), lit("1")]]]),
+            ("lit", [[["b"], lit("1")]]),
+        ]
+        for sname, st in sets:
+            wh = ["bin", "=", col("a", "tgt"), col("a", q)] if q else None
+            yield (f"update/{fn}/{sname}", ["update", ["tgt"], None, st, frm, wh])
+        if frm:
+            yield (f"update/{fn}/where_subq", ["update", ["s1", "tgt"], None, sets[0][1], frm,
+                                                ["in", col("a", "tgt"), False, select([item(col("a"))], [from_expr(table("t5"))])]])
